@@ -1046,10 +1046,19 @@ class Node(object):
         node.parentNode = self.parentNode
         node.ownerDocument = self.ownerDocument
         if deep:
+            # A deep copy must not share nodes with the original: storing a
+            # node in an attribute map re-parents it, so node-valued
+            # attributes are cloned as well.
+            ownChildren = True
             if node.attributes is not None and self.attributes is not None:
-                node.attributes.update(self.attributes)
-            if self.hasChildNodes():
-                for x in self.childNodes:
+                for key, value in list(self.attributes.items()):
+                    node.attributes[key] = self._cloneAttributeValue(value, node)
+                # The `self` attribute can be the child list itself
+                if self.hasChildNodes() and \
+                   self.attributes.get('self') is self.childNodes:
+                    ownChildren = False
+            if ownChildren and self.hasChildNodes():
+                for x in list(self.childNodes):
                     node.append(x.cloneNode(deep))
         else:
             if node.attributes is not None and self.attributes is not None:
@@ -1058,6 +1067,20 @@ class Node(object):
                 for x in self.childNodes:
                     node.append(x)
         return node
+
+    def _cloneAttributeValue(self, value, owner):
+        """ Deep copy of an attribute value for the clone `owner` """
+        if isinstance(value, Node):
+            clone = value.cloneNode(True)
+            if clone.nodeType == Node.DOCUMENT_FRAGMENT_NODE:
+                clone.parentNode = owner
+            return clone
+        if isinstance(value, list):
+            return [self._cloneAttributeValue(x, owner) for x in value]
+        if isinstance(value, dict):
+            return dict((k, self._cloneAttributeValue(v, owner))
+                        for k, v in value.items())
+        return value
 
     def normalize(self, charsubs=None):
         """
